@@ -30,6 +30,13 @@ CLAIMED.update({
          "Framebuffer = Go slice of exactly height*pitch bytes; in-grid coordinates are case-split (enumerated) and out-of-grid ones symbolic; characters < 4 with the synthetic 4-glyph fonts; one open known finding (KF-C19-1: framebuffer Scroll rewrites pitch padding / remainder rows).", "7 C19"),
 })
 
+CLAIMED.update({
+ "C17": ("Bounded symbolic model checking of the real tty.VT: one operation (WriteByte of any byte, Write of two bytes, SetCursorPosition with any 32-bit coordinates, SetState) from an arbitrary terminal state satisfying Inv(VT) on every geometry of an enumerated set, compared cell by cell (contents, scrollback, cursor, viewport, data offset) with an independent reference terminal; plus AttachTo as the init lemma. Histories of any length follow by induction on Inv(VT).",
+         "Geometries enumerated (width x height x scrollback x tab width), everything else symbolic; Inv(VT) assumed for the pre-state and re-established by the equality with the reference; attached console is a reference grid console.", "7 C17"),
+ "C18": ("Same step lemma as C17 with the sync invariant added: an active terminal's console shows exactly the viewport after every operation, an inactive terminal never touches the console, activation redraws - checked with a reference grid console (arbitrary cell colours) and with the shipped VgaTextConsole (cell word = 0x0700|char).",
+         "Framebuffer (VesaFbConsole) synchronisation is not part of this check: the driver's own painting is covered by C19; geometries enumerated as in C17.", "7 C18"),
+})
+
 NOT_APPLICABLE = {
  "C20": "FindRedirects is filepath.Walk + go/parser + ast.CommentMap + fmt over a source tree on disk; the inputs are directory trees and Go source text reached through OS calls, reflection and ~40k lines of standard library that the SSA executor cannot encode, and the non-reproducibility in question comes from runtime map-iteration randomisation, which is not a function of any solver-visible input. No bounded version is within reach of solver-based checking; see DESIGN.md 8.1.",
 }
